@@ -9,7 +9,7 @@ use tokio_stream::wrappers::WatchStream;
 
 pub use crate::node::NodeMembership;
 pub use crate::nodes_selector::{start_node_selector, NodeCycler, NodeSelectorHandle};
-use crate::{ClusterStatistics, MembershipChange, NodeId, Nodes, RpcNetwork};
+use crate::{ClusterStatistics, MembershipChanges, NodeId, Nodes, RpcNetwork};
 
 /// Public wrapper for `NodeSelectorHandle::set_nodes`.
 pub async fn set_nodes(
@@ -24,7 +24,7 @@ pub async fn run_membership_watcher(
     self_node_id: NodeId,
     node_selector: NodeSelectorHandle,
     changes: WatchStream<NodeMembership>,
-    membership_changes_tx: watch::Sender<MembershipChange>,
+    membership_changes_tx: watch::Sender<NodeMembership>,
 ) {
     crate::watch_membership_changes(
         self_node_id,
@@ -35,6 +35,14 @@ pub async fn run_membership_watcher(
         membership_changes_tx,
     )
     .await
+}
+
+/// The stream `membership_changes()` hands to a subscriber of the given channel.
+pub fn membership_changes(
+    self_node_id: NodeId,
+    members: watch::Receiver<NodeMembership>,
+) -> MembershipChanges {
+    MembershipChanges::new(self_node_id, members)
 }
 
 static CHOSEN_DCS: Mutex<Vec<Vec<String>>> = Mutex::new(Vec::new());
